@@ -113,6 +113,37 @@ def sync_oracle(c, rep):
     return fails, tr
 
 
+def fsm_oracle(c, rep):
+    ridx = [i for i, o in enumerate(c.ops) if o == "run fsm"]
+    sidx = [i for i, o in enumerate(c.ops) if o == "show"]
+    didx = [i for i, o in enumerate(c.ops) if o == "dump"]
+    if not ridx or not sidx:
+        return [], None
+    try:
+        tr = rtroracle.Trace(rep[ridx[0]])
+        fails = rtroracle.check_fsm_trace(tr, rep[sidx[0]][0])
+        # after rtr_stop none of the socket's records remain, the others are untouched (C07)
+        if len(didx) >= 2 and len(rep[didx[1]]) == 2:
+            pf0, ks0 = rtroracle.parse_dump(*rep[didx[0]])
+            pf1, ks1 = rtroracle.parse_dump(*rep[didx[1]])
+            if rtroracle.own(pf1) or rtroracle.own(ks1):
+                fails.append(("C07", "records of the socket remain after rtr_stop"))
+            if rtroracle.others(pf0) != rtroracle.others(pf1) or rtroracle.others(ks0) != rtroracle.others(ks1):
+                fails.append(("C07", "rtr_stop altered records of other sockets"))
+        # convergence (C08): the faults are followed by a cache that answers correctly
+        if c.meta.get("good_tail") and len(sidx) >= 2 and len(didx) >= 1:
+            sh = rtroracle.parse_show(rep[sidx[1]][0])
+            pf0, ks0 = rtroracle.parse_dump(*rep[didx[0]])
+            want_p = sorted(rtrgen.rec_str((p[0], p[1], p[2], p[3], p[4], 0)) for p in c.meta["cache_p"])
+            want_k = sorted(rtrgen.key_str((k[0], k[1], k[2], 0)) for k in c.meta["cache_k"])
+            established = any(e[0] == "state" and e[1] == "ESTABLISHED" for e in tr.events[-40:]) or sh["lu"] != 0
+            if rtroracle.own(pf0) != want_p or rtroracle.own(ks0) != want_k:
+                fails.append(("C08", "after the faults ended and the cache answered %d queries correctly the client's records differ from the cache's data set" % c.meta["good_tail"]))
+    except Exception as ex:
+        return [("ORACLE", "oracle exception %r" % (ex,))], None
+    return fails, tr
+
+
 def outcome_key(rep, c):
     """what must not depend on the segmentation: return value, socket, tables, bytes sent"""
     idx = [i for i, o in enumerate(c.ops) if o == "show"]
@@ -140,7 +171,7 @@ def run(pid, tier):
         return rep.finish()
 
     r = vlib.rng(pid)
-    n_sync = {"quick": 1200, "thorough": 30000}[tier]
+    n_sync = {"quick": 3000, "thorough": 60000}[tier]
     cases = []
     cdir = os.path.join(vlib.VERIF, "corpus", "rtr")
     ncorpus = 0
@@ -161,10 +192,30 @@ def run(pid, tier):
             continue
         variants.append((c, rtrgen.rechunk_case(r, c, "bytes")))
         variants.append((c, rtrgen.rechunk_case(r, c, "whole")))
-    allcases = cases + [v for _, v in variants]
+    # state-machine conversations (generated reactively against the model driver)
+    def run_model(ops):
+        o, rc_, err_ = vlib.run_lines(drv, ops)
+        return o
+    n_fsm = {"quick": 240, "thorough": 6000}[tier]
+    fsm_cases = []
+    rf = vlib.rng(pid + "/fsm")
+    fdir = os.path.join(vlib.VERIF, "corpus", "rtr")
+    if os.path.isdir(fdir):
+        for f in sorted(os.listdir(fdir)):
+            if f.endswith(".fsm"):
+                c = rtrgen.FsmCase()
+                c.ops = [l.strip() for l in open(os.path.join(fdir, f)) if l.strip() and not l.startswith("#")]
+                c.meta = {"mut": "corpus:" + f, "used": ["corpus"], "good_tail": 0}
+                fsm_cases.append(c)
+    for i in range(n_fsm):
+        if i % 4 == 3:
+            fsm_cases.append(rtrgen.gen_fsm_case(rf, run_model, nsteps=rf.randrange(1, 6), good_tail=6))
+        else:
+            fsm_cases.append(rtrgen.gen_fsm_case(rf, run_model))
+    allcases = cases + [v for _, v in variants] + fsm_cases
+    fsm_ids = set(id(c) for c in fsm_cases)
     results = run_cases(exe, drv, allcases)
     byid = {id(c): (irep, mrep, crash) for (c, irep, mrep, crash) in results}
-
     stats = {"cases": len(allcases), "corpus": ncorpus, "mut": {}, "ret": {}, "states": {}, "errcodes": {}, "crashes": 0,
              "rechunk_pairs": len(variants)}
     distinct = set()
@@ -181,7 +232,14 @@ def run(pid, tier):
         d = vlib.first_divergence(flat_i, flat_m)
         if d is not None:
             divergences.append((c, d, flat_i[d] if d < len(flat_i) else "<eof>", flat_m[d] if d < len(flat_m) else "<eof>"))
-        fs, tr = sync_oracle(c, irep)
+        if id(c) in fsm_ids:
+            fs, tr = fsm_oracle(c, irep)
+            stats["fsm"] = stats.get("fsm", 0) + 1
+            for u in c.meta.get("used", []):
+                stats.setdefault("fsm_steps", {})
+                stats["fsm_steps"][u] = stats["fsm_steps"].get(u, 0) + 1
+        else:
+            fs, tr = sync_oracle(c, irep)
         for f in fs:
             fails.append((c, f))
         if tr is not None:
